@@ -286,6 +286,19 @@ def gen_plan(r, proj):
             inv["args"] = inv["args"] + ["--no-audit"]
             inv["kind"] += "+noaudit"
         plan.append(inv)
+    # directed history (mandatory for the flavors of the first wave, random otherwise): the recipe of a dependency
+    # of the root changes, then the root alone is re-executed (`--no-deps --force`) while that dependency stays
+    # stale.  Every step EXECUTED by that invocation must record its actual variant-id (ids of the current
+    # recipes), see check_invocation.  Always the last invocation; the rng is consulted after everything else.
+    root = proj["roots"][0]
+    deps = recipes[root].get("deps", [])
+    if deps and not proj["sandbox"] and (fl in ("cscript", "git", "indet") or r.random() < 0.3):
+        d = r.choice(deps)
+        n = d if d in recipes else d.rsplit("-", 1)[0]
+        if n in recipes and recipes[n].get("buildScript") is not None:
+            recipes[n]["buildScript"] += "echo nodeps%d >> own.txt\n" % r.randrange(1000)
+            plan.append({"writes": {"recipes/%s.yaml" % n: recipe_yaml(recipes[n])}, "args": list(base) + ["-n", "-f"],
+                         "kind": "nodeps:" + n, "sandbox": proj["sandbox"], "nodeps": True})
     return plan
 
 
@@ -313,6 +326,30 @@ def check_invocation(inv, plan_inv, bobver, strict_presence, spec_id, refs_of):
         by_ws.setdefault(s["ws"], []).append(s)
     executed = {x[0] for x in inv.get("executed", [])}
     audit_on = "--no-audit" not in plan_inv["args"]
+    if plan_inv.get("nodeps"):
+        # `--no-deps --force` after the recipe of a dependency changed: the dependencies are deliberately stale, a
+        # step that was skipped legitimately keeps the trail of the run that produced its content (observation).
+        # Judged: the steps executed by this invocation - their trail is the trail of this execution and records
+        # the actual variant-id of the step (computed from the current recipes by Bob's own package graph).
+        for ws, group in sorted(by_ws.items()):
+            s = group[0]
+            if ws not in executed or not s["exists"] or not audit_on:
+                continue
+            if s.get("audit_err"):
+                yield ("audit-unreadable", "%s: %s" % (s["audit_path"], s["audit_err"]), s)
+                continue
+            if s["audit"] is None:
+                if strict_presence:
+                    yield ("audit-missing", "no audit trail next to %s although it was executed with audit" % ws, s)
+                continue
+            if not s.get("regenerated"):
+                yield ("executed-step-kept-old-trail", "%s was executed by this invocation but its audit trail was not regenerated" % ws, s)
+            got = s["audit"]["artifact"].get("variant-id")
+            if not any(got == g["vid"] for g in group):
+                yield ("audit-variant-id-differs", "%s (%s:%s) was executed by `bob dev %s` after the recipe of a dependency changed; "
+                       "its trail records variant-id %s, the actual variant-id of the step is %s" %
+                       (ws, s["pkg"], s["label"], " ".join(plan_inv["args"]), got, s["vid"]), s)
+        return
     # current trail of every workspace, addressable by (variant-id, label)
     cur = {}
     for s in inv["steps"]:
@@ -455,7 +492,7 @@ def evaluate(ctx, job, spec_id, refs_of, stats):
                                  "references": len(s["audit"]["references"]) if s.get("audit") else None} if s["trans"] else None,
                          nontrivial=bool(s["trans"]))
                 ctx.count("build_step", s["label"] + (":audit" if s.get("audit") else ":noaudit"))
-                if s.get("audit") and len(TRAILS) < 400 and s.get("regenerated"):
+                if s.get("audit") and len(TRAILS) < 400 and s.get("regenerated") and not pinv.get("nodeps"):
                     TRAILS.append({"path": s["audit_path"], "tree": s["audit"], "rbi": s.get("rbi")})
         ctx.count("invocation", pinv["kind"].split(":")[0])
         stats["steps"] = stats.get("steps", 0) + nsteps
